@@ -49,6 +49,8 @@ func checkC04(c *Ctx) {
 	r.Rule("R04c", "encoding/json is not applied to generated messages without a custom codec (sites listed)", 2)
 	r.Rule("R04f", "no overflow-prone time API in emitted conversions", 2)
 	r.Rule("R04g", "encoders do not swallow a child's marshalling error", 2)
+	r.Rule("R04h", "scenario messages: the keys the emitted encoder writes are the keys the documented mapping (and the decoder) use", 4)
+	crossScenarioKeys(c, "R04h", "go")
 
 	type siteAgg struct {
 		pos  string
